@@ -71,6 +71,10 @@ var c09Addrs = []addrSpec{
 	{"/ip6/fd00::1/tcp/3104/http", false},
 	{"/dns/localhost/tcp/3104/http", false},
 	{"/dns4/localhost/tcp/3104/http", false},
+	// zone-scoped IPv6 forms of loopback, link-local and unspecified
+	{"/ip6zone/lo/ip6/::1/tcp/3105", false},
+	{"/ip6zone/eth0/ip6/fe80::1/tcp/80/http", false},
+	{"/ip6zone/eth0/ip6/::/tcp/3104/http", false},
 }
 
 type c09Sent struct {
